@@ -142,7 +142,9 @@ class Resolver:
                     pass
                 muts = [d for d in self.defs.get(name_node.id, [])
                         if d is None]
-                if muts and not self._only_aug(name_node.id):
+                if muts and not _access_path(a.value):
+                    # (an alias of an access path still denotes the same
+                    # object after a mutating method call)
                     return None
             return a.value
         if isinstance(t, (ast.Tuple, ast.List)) and isinstance(
@@ -152,6 +154,28 @@ class Resolver:
                 if isinstance(tt, ast.Name) and tt.id == name_node.id:
                     return vv
         return None
+
+    def reaching_values(self, name_node):
+        """values of all simple definitions of this name reaching this use
+        (None when one of them is not a plain `name = expr`)"""
+        cfg = self._flow()
+        if not cfg:
+            return None
+        cn = cfg.node_containing(name_node)
+        if cn is None:
+            return None
+        out = []
+        for (v, d) in self._rdin.get(cn.id, ()):
+            if v != name_node.id:
+                continue
+            dn = cfg.nodes[d]
+            a = dn.ast
+            if dn.kind != "stmt" or not isinstance(a, ast.Assign) or \
+                    len(a.targets) != 1 or not isinstance(
+                        a.targets[0], ast.Name):
+                return None
+            out.append(a.value)
+        return out
 
     def _only_aug(self, name):
         return False
@@ -221,6 +245,17 @@ class Resolver:
         return canon_text(self.resolve(expr))
 
 
+def _access_path(v):
+    while True:
+        if isinstance(v, ast.Attribute):
+            v = v.value
+        elif isinstance(v, ast.Subscript) and isinstance(v.slice,
+                                                         ast.Constant):
+            v = v.value
+        else:
+            return isinstance(v, ast.Name)
+
+
 def _flatten(node, op):
     if isinstance(node, ast.BinOp) and isinstance(node.op, op):
         return _flatten(node.left, op) + _flatten(node.right, op)
@@ -242,6 +277,18 @@ def canon(expr):
                     for p in parts[1:]:
                         out = ast.BinOp(left=out, op=op(), right=p)
                     return out
+            return node
+
+        def visit_Call(self, node):
+            self.generic_visit(node)
+            f = node.func
+            if isinstance(f, ast.Attribute) and f.attr == "count_nonzero" \
+                    and isinstance(f.value, ast.Name) and f.value.id in (
+                        "np", "numpy") and len(node.args) == 1 and \
+                    not node.keywords:
+                from .normalize import _is_mask
+                if _is_mask(node.args[0]):
+                    f.attr = "sum"
             return node
 
     return C().visit(clone(expr))
